@@ -63,6 +63,33 @@ func ruleSqrtContext(w *World, r *RuleResult) {
 	} else {
 		r.ok(key, w.instrPos(last), "Precision = c.Precision and Rounding = half_even are the last stores before the final round", true)
 	}
+	// every Newton step (ErrDecimal wrapper on the working context) runs under half-even too
+	if ctxName != "c" {
+		key2 := "(*Context).Sqrt | iteration steps round half-even"
+		var bad2 []string
+		n := 0
+		for _, c := range callsIn(f) {
+			call, ok := c.(*ssa.Call)
+			if !ok {
+				continue
+			}
+			g := callee(call)
+			if g == nil || g.Signature.Recv() == nil || w.apdTypeName(g.Signature.Recv().Type()) != "ErrDecimal" || errDecimalNonWrappers[g.Name()] != "" {
+				continue
+			}
+			n++
+			cc := call
+			rnd := w.lastStoresVia(f, last.Common().Args[0], "Rounding", func(in ssa.Instruction) bool { return in == ssa.Instruction(cc) })
+			if len(rnd) != 1 || rnd[0] != he {
+				bad2 = append(bad2, fmt.Sprintf("at %s the working context rounds %v", w.instrPos(call), rnd))
+			}
+		}
+		if len(bad2) > 0 {
+			r.bad(key2, w.pos(f.Pos()), "the Newton iteration must run under round-half-even (the Hull–Abrham analysis assumes it): "+strings.Join(uniqStrings(bad2), "; "))
+		} else if n > 0 {
+			r.ok(key2, w.pos(f.Pos()), fmt.Sprintf("%d wrapper steps, the working context's Rounding is half_even at each", n), true)
+		}
+	}
 	// working precision strictly larger: WithPrecision(workp) where workp ≥ c.Precision+1
 	key = "(*Context).Sqrt | working precision exceeds the target"
 	okW := false
@@ -217,9 +244,39 @@ func ruleCbrtExactness(w *World, r *RuleResult) {
 			}
 		}
 	}
+	// no return may deliver the rounding flags before the exactness test has been made
+	if ok {
+		var exact *ssa.If
+		for _, b := range f.Blocks {
+			if iff, isIf := b.Instrs[len(b.Instrs)-1].(*ssa.If); isIf {
+				if bo, isB := iff.Cond.(*ssa.BinOp); isB && bo.Op == token.EQL {
+					if call, isC := bo.X.(*ssa.Call); isC && w.calleeName(call) == "(*Decimal).Cmp" {
+						exact = iff
+					}
+				}
+			}
+		}
+		rounds := w.callsTo(f, "(*Context).round")
+		if exact != nil && len(rounds) > 0 {
+			final := rounds[len(rounds)-1]
+			for _, b := range f.Blocks {
+				rt, isRet := b.Instrs[len(b.Instrs)-1].(*ssa.Return)
+				if !isRet || !(b == final.Block() || reaches(final.Block(), b)) {
+					continue
+				}
+				if bits, isK := condBits(rt.Results[0]); isK && bits == 0 {
+					continue // (0, err) / (0, nil)
+				}
+				if !exact.Block().Dominates(b) {
+					ok = false
+					r.bad(key, w.instrPos(rt), "the rounding flags can be returned before the exactness test operand == d³ has been made: a perfect cube would report Inexact (or trap)")
+				}
+			}
+		}
+	}
 	if ok {
 		r.ok(key, w.pos(f.Pos()), "(0, nil) is returned only under operand == d·d·d; otherwise the rounding flags", true)
-	} else {
+	} else if countKey(r, key) == 0 {
 		r.bad(key, w.pos(f.Pos()), "no return of zero flags guarded by `operand copy`.Cmp(d³) == 0: perfect cubes would report Inexact, or inexact roots would report exact")
 	}
 	for _, name := range []string{"(*Context).Sqrt", "(*Context).Cbrt"} {
